@@ -86,7 +86,7 @@ def member_access(e, depth):
 
 CV = RefOf(CR + "cpp_value")
 contract(CR + "base_type_member_access", props=["C10"], replay="base_type_member_access",
-         params=dict(v=CV, extra_deref=Int), result=Str,
+         params=dict(v=CV, extra_deref=Int), result=Str, defaults=dict(extra_deref="0"),
          requires=["extra_deref >= 0", "field(v, '_cpp_type') != None", "field(field(v, '_cpp_type'), '_p_depth') >= 0"],
          ensures=[("access", "result == member_access(field(v, '_expression'), extra_deref + field(field(v, '_cpp_type'), '_p_depth'))")],
          loops={1: dict(invariant=[("I.deref", "result == deref(field(v, '_expression'), _i)")])})
